@@ -18,6 +18,8 @@ type gen struct {
 	funcs  map[string]int // name -> arity
 	depthF int
 	dice   int // 0 = no dice, 1 = one-sided dice only, 2 = any dice (min/max mode)
+	comps  []string // computed values defined so far (top level)
+	inComp bool     // generating the expression of a computed value
 }
 
 func (g *gen) diceNode() *Node {
@@ -92,6 +94,20 @@ func (g *gen) num(d int) *Node { // int or float expression
 	case 4:
 		return &Node{K: KUnary, S: g.pick("-", "+"), Kids: []*Node{g.num(d - 1)}}
 	case 5:
+		if g.r.Intn(5) == 0 {
+			// neighbours where a float64 cannot tell two integers apart (and where int/float mix)
+			base := []int64{9007199254740992, 9007199254740993, 4611686018427387904, 9223372036854775806, 9007199254740991, 36028797018963968}[g.r.Intn(6)]
+			delta := []int64{-1, 0, 1, 1, -1, 2}[g.r.Intn(6)]
+			var other *Node = I(base + delta)
+			if g.r.Intn(6) == 0 {
+				other = &Node{K: KFloat, F: float64(base)}
+			}
+			kids := []*Node{I(base), other}
+			if g.r.Intn(2) == 0 {
+				kids[0], kids[1] = kids[1], kids[0]
+			}
+			return &Node{K: KBin, S: g.pick("<", "<=", "==", "!=", ">=", ">"), Kids: kids}
+		}
 		return &Node{K: KBin, S: g.pick("<", "<=", "==", "!=", ">=", ">"), Kids: []*Node{g.num(d - 1), g.num(d - 1)}}
 	case 6:
 		return &Node{K: KBin, S: g.pick("&", "|"), Kids: []*Node{g.num(d - 1), g.num(d - 1)}}
@@ -214,6 +230,13 @@ func (g *gen) any(d int) *Node {
 	case 9:
 		return &Node{K: KNull}
 	case 10:
+		if g.inComp {
+			// free variables of a computed value: globals, and names that functions bind locally
+			return V(g.pick("vi", "wi", "xi", "vs", "va", "pa", "pb", "t1", "t2", "vi", "pa"))
+		}
+		if len(g.comps) > 0 && g.r.Intn(3) == 0 {
+			return V(g.comps[g.r.Intn(len(g.comps))])
+		}
 		return V(allVars[g.r.Intn(len(allVars))])
 	default:
 		if d > 0 {
@@ -280,6 +303,25 @@ func (g *gen) stmt(d int) *Node {
 		}
 		body := []*Node{{K: KAssign, S: cnt, Kids: []*Node{{K: KBin, S: "+", Kids: []*Node{V(cnt), I(1)}}}}, lvl1, {K: KAssign, S: "t1", Kids: []*Node{V(cnt)}}}
 		return &Node{K: KWhile, Kids: []*Node{{K: KBin, S: "<", Kids: []*Node{V(cnt), I(lim)}}}, Body: body}
+	}
+	if d > 0 && g.depthF == 0 && !g.inLoop && !g.inComp && g.r.Intn(14) == 0 {
+		// a computed value at top level; functions defined later may read it while holding
+		// locals of the same names as its free variables
+		name := g.pick("z1", "z2")
+		g.inComp = true
+		savedFuncs := g.funcs
+		g.funcs = map[string]int{}
+		e := g.any(1)
+		g.funcs = savedFuncs
+		g.inComp = false
+		known := false
+		for _, c := range g.comps {
+			known = known || c == name
+		}
+		if !known {
+			g.comps = append(g.comps, name)
+		}
+		return &Node{K: KCompDef, S: name, Kids: []*Node{e}}
 	}
 	switch g.r.Intn(14) {
 	case 0, 1, 2, 3:
@@ -397,10 +439,59 @@ func (g *gen) aliasScenario() []*Node {
 	return out
 }
 
+// scopeScenario: a computed value whose free variables are also bound locally by the functions
+// that read it (parameter or local assignment of the same name), read at top level, through the
+// functions and through another computed value.
+func (g *gen) scopeScenario() []*Node {
+	asg := func(name string, e *Node) *Node { return &Node{K: KAssign, S: name, Kids: []*Node{e}} }
+	free := g.pick("vi", "pa", "t1", "wi")
+	var out []*Node
+	if free != "pa" || g.r.Intn(2) == 0 {
+		out = append(out, asg(free, I(int64(1+g.r.Intn(9)))))
+	}
+	expr := &Node{K: KBin, S: g.pick("+", "*", "-"), Kids: []*Node{V(free), I(int64(1 + g.r.Intn(5)))}}
+	if g.r.Intn(3) == 0 {
+		expr = &Node{K: KArr, Kids: []*Node{V(free), V("wi")}}
+	}
+	out = append(out, &Node{K: KCompDef, S: "z1", Kids: []*Node{expr}})
+	known := false
+	for _, c := range g.comps {
+		known = known || c == "z1"
+	}
+	if !known {
+		g.comps = append(g.comps, "z1")
+	}
+	// fa binds the name as a parameter, fb by a local assignment
+	fa := &Node{K: KFunc, S: "fa", Params: []string{free}, Body: []*Node{V("z1")}}
+	if free == "vi" || free == "wi" || free == "t1" {
+		fa.Params = []string{"pa"}
+		fa.Body = []*Node{asg(free, V("pa")), V("z1")}
+	}
+	fb := &Node{K: KFunc, S: "fb", Params: nil, Body: []*Node{asg(free, I(int64(100 + g.r.Intn(9)))), &Node{K: KBin, S: "+", Kids: []*Node{V("z1"), I(0)}}}}
+	if expr.K == KArr {
+		fb.Body[1] = V("z1")
+	}
+	g.funcs["fa"], g.funcs["fb"] = 1, 0
+	out = append(out, fa, fb)
+	if g.r.Intn(2) == 0 {
+		out = append(out, &Node{K: KCompDef, S: "z2", Kids: []*Node{V("z1")}})
+	}
+	reads := []*Node{{K: KCall, S: "fa", Kids: []*Node{I(int64(10 + g.r.Intn(9)))}}, V("z1"), {K: KCall, S: "fb"}}
+	if len(out) > 0 && out[len(out)-1].K == KCompDef && out[len(out)-1].S == "z2" {
+		reads = append(reads, V("z2"))
+	}
+	out = append(out, &Node{K: KArr, Kids: reads})
+	return out
+}
+
 func (g *gen) stmts(d, max int) []*Node {
 	n := 1 + g.r.Intn(max)
 	var out []*Node
 	for i := 0; i < n; i++ {
+		if d > 0 && !g.inLoop && g.depthF == 0 && !g.inComp && g.r.Intn(25) == 0 {
+			out = append(out, g.scopeScenario()...)
+			continue
+		}
 		if d > 0 && !g.inLoop && g.depthF == 0 && g.r.Intn(12) == 0 {
 			out = append(out, g.aliasScenario()...)
 			continue
@@ -476,6 +567,8 @@ func (c *canonCtx) r(v Val) string {
 		return s
 	case *Fn:
 		return "fn:" + x.Name
+	case *Comp:
+		return "t5"
 	}
 	return "?"
 }
